@@ -145,6 +145,10 @@ impl Array8 {
         self.estimator.hip_accum()
     }
 
+    pub(super) fn estimator(&self) -> &HipEstimator {
+        &self.estimator
+    }
+
     /// Directly set a register value
     ///
     /// This bypasses the normal update path and directly modifies the register.
